@@ -655,6 +655,10 @@ spifconf_shell_expand(spif_charptr_t s)
                   }
                   ASSERT_RVAL(l < CONFIG_BUFF, NULL);
                   Command[l] = 0;
+                  if (!*pbuff) {
+                      /* No closing backquote:  leave the terminator to the loop above us. */
+                      pbuff--;
+                  }
                   Command = spifconf_shell_expand(Command);
                   Output = builtin_exec(Command);
                   FREE(Command);
